@@ -186,6 +186,13 @@ Definition fill_row (v : mat str) (h w r : nat) (style : nat -> str) : mat str :
 Definition has_column_headers (hs : headers) : bool :=
   match hs with HFlat l => nonempty l | HNested l => nonempty l | HNone => false end.
 
+(* PageFeatureProcessor._renders_column_header: at least one header row is actually rendered *)
+Definition renders_column_header (hs : headers) (as_colheader : bool) : bool :=
+  let flat := match hs with HFlat l => l | HNested l => concat l | HNone => [] end in
+  existsb (fun o => match o with
+                    | Some h => match h_text h with Some _ => true | None => as_colheader end
+                    | None => false end) flat.
+
 (* _apply_body_border_first: styles come from the ORIGINAL body attributes, by displayed column index *)
 Definition body_border_first_style (orig : attrs) (c : nat) : option str :=
   match a_bfirst orig with
@@ -221,7 +228,7 @@ Definition process_page (s : secdoc) (pattrs : attrs) (p : pagectx) (w : nat) : 
     let a0 := rebase_attrs (pc_slice_start p) h pattrs in
     let bt0 := or_blank (a_bt a0) h w in
     let bb0 := or_blank (a_bb a0) h w in
-    let has_hdr := has_column_headers (s_headers s) in
+    let has_hdr := renders_column_header (s_headers s) (b_as_colheader (s_body s)) in
     let body_bf := match a_bfirst orig with Some (_ :: _) => true | _ => false end in
     (* top edge *)
     let bt1 := if pc_first p && negb has_hdr && truthy_s (p_border_first pg)
